@@ -467,10 +467,25 @@ class C20(Scenario):
         those made when every differentiation rule that will ever be registered for a type in
         their expression is already registered (an application made before a rule exists may
         legitimately differ from one made after)."""
+        parent = {}
+        for u in units:
+            if u["k"] == "regtype":
+                b = u["op"][3]
+                if isinstance(b, list):
+                    parent[u["op"][1]] = b[1][1] if b[0] == "mi" else b[1]
         last_rule = {}
         for ui, u in enumerate(units):
             if u["k"] == "regdrule":
                 last_rule[u["op"][2][1]] = ui
+
+        def rules_after(t, ui):
+            # a rule for a type also serves every late type deriving from it
+            while t is not None:
+                if last_rule.get(t, -1) > ui:
+                    return True
+                t = parent.get(t)
+            return False
+
         expr_types = {}
         out = []
         for ui, u in enumerate(units):
@@ -487,8 +502,10 @@ class C20(Scenario):
                     if isinstance(a, list) and a and a[0] == "$":
                         ts |= expr_types.get(a[1], set())
                 expr_types[op[1]] = ts
-            elif u["k"] in ("applyreal", "applyinst") and len(op) > 4 and op[4] == "sig":
-                if all(last_rule.get(t, -1) < ui for t in expr_types.get(op[3], set())):
+            elif u["k"] == "applyreal" and len(op) > 4 and op[4] == "sig":
+                # (long-lived instances keep their own memo of results by design - DAGTraverser's
+                # visited cache - and are judged by the twin only)
+                if not any(rules_after(t, ui) for t in expr_types.get(op[3], set())):
                     out.append(ui)
         return set(out[-8:])
 
